@@ -439,7 +439,7 @@ def lower_facts(t):
 
 def istr_facts(i):
     s = ISTR(lift(i))
-    return [z3.Not(z3.Contains(s, z3.StringVal(p))) for p in ("c", "g", "m", ".", ":", "_")] + [z3.Length(s) >= 1]
+    return [z3.Not(z3.Contains(s, z3.StringVal(p))) for p in ("c", "g", "m", ".", ":", "_")] + [z3.Length(s) >= 1, LOWER(s) == s]
 
 
 # ------------------------------------------------------------------------------------------------
